@@ -18,11 +18,11 @@ RULE = ("printed comments <= source comments as multisets, content equal with/wi
         "found at the location spec/Comments.tla predicts; decided by spec/TraceComments.tla; distinct = placements")
 
 
-def behaviours(n, seed, ck, max_comments=4, max_steps=14, tag="comments"):
+def behaviours(n, seed, ck, max_comments=4, max_steps=14, tag="comments", mode="nodup"):
     vocab.get()
     cfg = tlc.cfg_text(init="CInit", next_="CNext",
                        constants={"MaxDepth": 5, "MaxSteps": max_steps, "Ids": {1, 2, 3, 4}, "StepPosts": False,
-                                  "Mode": "nodup", "MaxComments": max_comments},
+                                  "Mode": mode, "MaxComments": max_comments},
                        invariants=["CEmit", "ClaimedStay", "NoDuplication"])
     r = tlc.run("Comments", cfg, tag=tag, mode="simulate", simulate="num=%d" % n, depth=max_steps + max_comments + 8,
                 seed=seed, timeout=1800)
